@@ -28,7 +28,7 @@ inductive Instr where
   | goto (l : Nat)
   | label (l : Nat)
   | bb | be
-  | switchOn (sw : Nat) (keys : List (List Sym))
+  | switchOn (sw : Nat) (keys : List (List (Nat × Nat)))
   | slabel (sw i : Nat)
   | sjmp (sw : Nat)                      -- end of a case body (implicit in Go)
   | brk (sw : Nat)                       -- explicit `break`
@@ -77,6 +77,17 @@ def jstr (s : String) : String := "\"" ++ jsonEscape s ++ "\""
 def symsText (s : List Sym) : String :=
   "[" ++ ",".intercalate (s.map toString) ++ "]"
 
+/-- Merge overlapping / adjacent ranges of an ascending range list (canonical form of case keys). -/
+def mergeRanges : List (Nat × Nat) → List (Nat × Nat)
+  | [] => []
+  | r :: rs =>
+    match mergeRanges rs with
+    | [] => [r]
+    | q :: qs => if q.1 ≤ r.2 + 1 then (r.1, max r.2 q.2) :: qs else r :: q :: qs
+
+def rangesText (ks : List (Nat × Nat)) : String :=
+  "[" ++ ",".intercalate ((mergeRanges ks).map (fun r => s!"{r.1}-{r.2}")) ++ "]"
+
 def Instr.toLine : Instr → String
   | .save n => s!"save {n}"
   | .savePos n => s!"savePos {n}"
@@ -94,7 +105,7 @@ def Instr.toLine : Instr → String
   | .label l => s!"label {l}"
   | .bb => "bb"
   | .be => "be"
-  | .switchOn sw keys => s!"switchOn {sw} [{",".intercalate (keys.map symsText)}]"
+  | .switchOn sw keys => s!"switchOn {sw} [{",".intercalate (keys.map rangesText)}]"
   | .slabel sw i => s!"slabel {sw} {i}"
   | .sjmp sw => s!"sjmp {sw}"
   | .brk sw => s!"brk {sw}"
